@@ -159,6 +159,24 @@ CHECKS = {
             "Trusts NumPy integer-valued float arithmetic to be exact and the brute-force reference in "
             "synverif/ref_conv.py (torch.nn.Unfold/Fold definition).",
             "DESIGN.md 4/C16"),
+    "C19": ("property-based metamorphic testing (Hypothesis): digest equality of generated programs across re-execution, fresh processes and repetitions",
+            "Generated programs over all random-consuming APIs, training steps and a fixed-data DAG with fan-out are "
+            "executed after manual_seed(s); the SHA-256 digest of everything produced must be identical for two "
+            "in-process runs, across fresh subprocesses with PYTHONHASHSEED in {0,1,4242,random} and drawn allocation "
+            "perturbations (junk objects, unrelated imports before the library is imported), and for the fixed-data "
+            "part across 1-5 repetitions; different seeds must give different digests when the program draws.",
+            "Allocation layouts / hash seeds are sampled, not enumerated; BLAS threads pinned to 1 in all processes.",
+            "DESIGN.md 4/C19"),
+    "C20": ("property-based testing (Hypothesis) of generated training configurations with an invariant over the recorded event history",
+            "Trainer.fit/test are run for generated configurations (epochs 0-3, 1-4 batches, optional validation, "
+            "evaluator modes, callbacks, models with BatchNorm/Dropout, five losses, SGD/Adam) with spies installed from "
+            "outside on optimizer.step/zero_grad, model.forward, the loss callable and loss.backward; the event log "
+            "must show exactly epochs*len(loader) steps in the order forward(train)->zero_grad->backward->step, eval "
+            "mode on every submodule and tracking off during validation/test, unchanged parameters/running statistics "
+            "across validation and test, restored gradient mode, history keys/lengths, epoch loss = mean of recorded "
+            "batch losses, accuracies equal to a reference count.",
+            "Single-sample batches and empty loaders are not generated; the progress bar is a stand-in.",
+            "DESIGN.md 4/C20"),
 }
 
 NOT_YET = "check not built yet in this session (work in progress; see DESIGN.md section 8)"
